@@ -284,6 +284,10 @@ func K9() *Entry {
 		"Owner":          {{Name: "owner_rank", Type: "github.com/hashicorp/terraform-plugin-framework/types.Int64Type", Optional: true}},
 		"User.Spec.Meta": {{Name: "spec_meta_note", Type: "github.com/hashicorp/terraform-plugin-framework/types.StringType", Optional: true, Computed: true, PlanModifiers: []string{USFU}}},
 	}
+	// computed fields with and without explicit plan modifiers while UseStateForUnknown is the default
+	c.UseStateForUnknown = true
+	c.ComputedFields = []string{"User.Title", "Meta.Revision", "User.Spec.Level"}
+	c.PlanModifiers = map[string][]string{"User.Title": {PM("t1"), PM("t2")}, "User.Spec.Level": {PM("l1"), USFU, PM("l2")}}
 	return &Entry{Name: "k9", File: f, Cfg: c, Tags: []string{"multi-path", "multi-root", "embed", "time"}}
 }
 
@@ -350,7 +354,7 @@ func K11(which int) *Entry {
 		return &Entry{Name: "k11f", File: f, Cfg: c, Tags: []string{"custom-in-embed?"}}
 	default:
 		// oneof inside an embedded message
-		inner := WithOneofs(M("Inner", F("InnerName"), F("Left", In(0)), F("Right", Sc(ir.Int64), In(0))), "Side")
+		inner := WithOneofs(M("Inner", F("InnerName"), F("Left", In(0)), F("Right", Sc(ir.Int64), In(0)), F("Round", Sc(ir.Bool), In(1)), F("Square", In(1)), F("Flat", Sc(ir.Double), In(2)), F("Deep", In(2))), "Side", "Shape", "Relief")
 		f := file("k11d", M("Host", F("Name"), F("Inner", MsgT("Inner"), NonNull(), Embed())), inner)
 		AutoComments(f)
 		return &Entry{Name: "k11d", File: f, Cfg: BaseConfig("Host"), Tags: []string{"oneof-in-embed"}}
